@@ -144,6 +144,36 @@ theorem execution_readonly_partial :
   rw [List.all_eq_true] at h1 h2 h3
   exact ⟨h1, fun e he => by simpa using h2 e he, h3⟩
 
+/-- **Post-construction, thread-safe mode ⇒ no member writes (partial).**  For every const member function of a class with `mutable`
+members that reaches a function mutating one of them, the translator extracts the guard of the call from the current source as a
+boolean formula (`Generated.C07_Share.guards`).  Every such call that is classified "only in the mapping phase"
+(`XercesDocumentWrapper::mapNode → createWrapperNode`: arena allocation and insertion into the shared `m_nodeMap` on a lookup miss)
+has a guard that, under *every* assignment of its variables, forces `m_mappingMode == true`; and `m_mappingMode` is false for a
+wrapper built pre-built / thread-safe.  Weakening the guard (`m_mappingMode == true || m_buildMaps == false`) makes this fail;
+all other entries are unguarded const mutators of per-thread classes (XObject caches, the per-transformer ICU functors).
+`_partial`: guards are extracted by regular expressions from braces and `if` conditions; calls into the mutators from other
+files are not seen. -/
+theorem guards_imply_mapping_phase_partial :
+    (∀ g ∈ C07_Share.guards, C07_Share.allow.lookup g.key = some Guard.mappingPhaseOnly →
+      ∀ env ∈ allEnvs g.vars.length, g.cond.eval env = true →
+        ∃ i, g.vars.findIdx? (· == "m_mappingMode") = some i ∧ env.getD i false = true) ∧
+    (C07_Share.guards.any fun g => C07_Share.allow.lookup g.key == some Guard.mappingPhaseOnly) = true := by
+  have h : C07_Share.guards.all (fun g => C07_Share.allow.lookup g.key != some Guard.mappingPhaseOnly || g.implies "m_mappingMode") = true := by
+    decide +kernel
+  refine ⟨?_, by decide +kernel⟩
+  rw [List.all_eq_true] at h
+  intro g hg hc env henv hev
+  have hg' := h g hg
+  simp only [hc, bne_self_eq_false, Bool.false_or] at hg'
+  unfold GuardEntry.implies at hg'
+  cases hi : g.vars.findIdx? (· == "m_mappingMode") with
+  | none => simp [hi] at hg'
+  | some i =>
+    simp only [hi, List.all_eq_true] at hg'
+    have := hg' env henv
+    simp only [hev, Bool.not_true, Bool.false_or] at this
+    exact ⟨i, rfl, this⟩
+
 /-- **No step reachable from the per-thread objects of a transformation writes a process-wide table (partial).**  Over the
 regenerated call graph — roots: every non-static member function of `XalanTransformer`, `XSLTEngineImpl`,
 `StylesheetExecutionContextDefault`, `XPathExecutionContextDefault`, `XSLTProcessorEnvSupportDefault`, `XPathEnvSupportDefault`
@@ -408,7 +438,7 @@ theorem nopool_counterexample :
 /-- Outside the quantifier: wrapper nodes built on demand (`m_mappingMode`) race on the lazily filled members. -/
 theorem mapping_mode_counterexample :
     let nodeMap := idxOf C07_Share.k_nodeMap
-    (racyEntries Mode.xercesMapping).length = 10 ∧
+    (racyEntries Mode.xercesMapping).length = 11 ∧
     hasRace (syncLoc Mode.xercesMapping)
       (tableMachine.trace [1, 0] (tableConfig [[⟨nodeMap, true⟩], [⟨nodeMap, true⟩]])) = true := by
   refine ⟨by decide +kernel, by decide +kernel⟩
